@@ -7,6 +7,8 @@
 (* decides whether the deviation breaks C07 / C08.                                                                     *)
 EXTENDS MC_SatCoreImpl, Json
 
+CONSTANT EmitFrom    \* 0: every transition is a test (exhaustive search); k: only histories of at least k calls and those that end
+                     \* in an inconsistent network are (random walks over the model: tlc -simulate)
 VARIABLE ops
 
 Obs == [v |-> [i \in 1..NV |-> val'[i]], dl |-> Len(lim'), dead |-> dead']
@@ -15,11 +17,12 @@ Call ==    \* the call just made, from lastOp'
     [] lastOp'[1] = "assume" -> <<"assume", lastOp'[2], lastOp'[3]>>
     [] lastOp'[1] = "propagate" -> <<"propagate", lastOp'[2]>>
     [] lastOp'[1] = "next" -> <<"next", lastOp'[2]>>
+ [] lastOp'[1] = "check" -> <<"check", lastOp'[2], lastOp'[3]>>
     [] lastOp'[1] = "simplify_db" -> <<"simplify_db", lastOp'[2]>>
     [] OTHER -> <<"pop">>
 GInit == Init /\ ops = <<>>
 GNext == Next /\ ops' = Append(ops, [call |-> Call, obs |-> Obs])
 GSpec == GInit /\ [][GNext]_<<vars, ops>>
 GView == vars
-Emit == PrintT(<<"SATTEST", ToJson([ops |-> ops', nv |-> NV])>>)
+Emit == (Len(ops') >= EmitFrom \/ dead') => PrintT(<<"SATTEST", ToJson([ops |-> ops', nv |-> NV])>>)
 =============================================================================
